@@ -15,8 +15,17 @@ PROPERTY = "C04"
 LEVEL = "model_checking"
 
 
-def isomorphic(a, b):
-    """bisimulation with identity classes between two object graphs; returns (structure_ok: bool, why, scalar_terms)"""
+def _dedupe(xs):
+    out = []
+    for x in xs:
+        if not any(x is y for y in out):
+            out.append(x)
+    return out
+
+
+def isomorphic(a, b, collections_as_sets=False):
+    """bisimulation with identity classes between two object graphs; returns (True or reason, scalar_terms).
+    collections_as_sets: collections of objects are compared as sets of elements (C05: 'contain the same elements')"""
     fwd, inv, terms = {}, {}, []
 
     def walk(x, y, path):
@@ -38,6 +47,24 @@ def isomorphic(a, b):
                 if r is not True:
                     return r
             elif isinstance(u, list):
+                if collections_as_sets and isinstance(v, list) and any(dataclasses.is_dataclass(e) for e in u + v):
+                    u, v = _dedupe(u), _dedupe(v)
+                    # order-insensitive: pair every element with its partner (if the walk met it already) or with the
+                    # first unused element of the same class and the same plain field values
+                    def plain(o):
+                        return tuple((f.name, getattr(o, f.name)) for f in dataclasses.fields(o) if isinstance(getattr(o, f.name), (int, str, float, bool, type(None))))
+                    pool_v, ordered = list(v), []
+                    for e in u:
+                        g = next((g for g in pool_v if fwd.get(id(e)) is g), None)
+                        if g is None and id(e) not in fwd:
+                            g = next((g for g in pool_v if id(g) not in inv and type(g) is type(e) and plain(g) == plain(e)), None)
+                        if g is None:
+                            return "collection elements differ at " + p
+                        pool_v.remove(g)
+                        ordered.append(g)
+                    if pool_v:
+                        return "collection has extra elements at " + p
+                    v = ordered
                 if not isinstance(v, list) or len(u) != len(v):
                     return "collection differs at " + p
                 for i, (e, g) in enumerate(zip(u, v)):
@@ -80,15 +107,17 @@ def graph_case(n_nodes, with_vecs, fixed, nseq):
         if with_vecs:
             pool = [M.Vec(ctx.fresh_int("x%d" % j)) for j in range(2)]
         else:
-            kinds = [pick(ctx, "leafclass%d" % j, 3, fixed) for j in range(2)]
+            kinds = [pick(ctx, "leafclass%d" % j, 4, fixed) for j in range(2)]
             pool = []
             for j, k in enumerate(kinds):
                 if k == 0:
                     pool.append(M.Leaf(ctx.fresh_int("v%d" % j)))
                 elif k == 1:
                     pool.append(M.SubLeaf(ctx.fresh_int("v%d" % j), ctx.fresh_int("w%d" % j)))
-                else:
+                elif k == 2:
                     pool.append(M.SubSubLeaf(ctx.fresh_int("v%d" % j), ctx.fresh_int("w%d" % j), ctx.fresh_int("z%d" % j)))
+                else:
+                    pool.append(M.DeepLeaf(ctx.fresh_int("v%d" % j), ctx.fresh_int("w%d" % j), d=ctx.fresh_int("d%d" % j)))
         nodes = []
         for i in range(n_nodes):
             if pick(ctx, "sub%d" % i, 2, fixed):
